@@ -199,7 +199,9 @@ def run(ctx):
     fixed = ["", "<empty>", " ", ">=1.0 , <2", "==1!0.*", "~=1!0.1", "~=1.0c1", "~=1.0.rev1", "~=v1.1", "~=1.0-rc.1",
              "!=1!2.3.*", "~=2!1.2.3", "==01.02.*", "~=1.0.0.0.0", "==1.0alpha1", "<=1.0-1", ">=1.0||<0.5", "<empty>||>=1",
              "~= 1.2.post3.dev4", "~=1.2a3", "== 0!1.*", "~=1.2_beta.3", ">=\xa01.0", ">=1.0\u2003,\u2003<2", "\u3000==1.*",
-             "~=1.0.po\u017ft1", ">=1.0\u2028", "==1.0.\u0661", ">=\uff11.0"]
+             "~=1.0.po\u017ft1", ">=1.0\u2028", "==1.0.\u0661", ">=\uff11.0",
+             # clauses that are empty or blank: at the ends, doubled, and in the middle of the set
+             ">=1.0, ,<2.0", ", ,", ">=1 ,\t, <2", "<1||>=2, ,<3", ",>=1", ">=1,", ">=1,,<2", " , >=1 , ", ">=1,\u00a0,<2"]
     for t in fixed:
         ctx.current_case = {"kind": "text", "text": t}
         _one(ctx, t)
@@ -222,6 +224,12 @@ def run(ctx):
         clauses = [_clause(ctx, rnd) for _ in range(k)]
         sep = rnd.choice([",", ", ", " , "]) if rnd.random() < 0.95 else rnd.choice(UNICODE_BLANKS) + "," + rnd.choice(UNICODE_BLANKS)
         text = sep.join(c[0] for c in clauses)
+        if rnd.random() < 0.05:
+            # an empty / blank clause somewhere in the set (packaging ignores clauses that are empty after stripping)
+            parts = [c[0] for c in clauses]
+            parts.insert(rnd.randrange(len(parts) + 1), rnd.choice(["", " ", "\t", "  "]))
+            text = rnd.choice([",", ", ", " ,"]).join(parts)
+            ctx.shape("shape:blank-clause")
         if rnd.random() < 0.04:
             text = rnd.choice(UNICODE_BLANKS) + text + rnd.choice(UNICODE_BLANKS)
             ctx.shape("shape:unicode-blank")
